@@ -150,6 +150,19 @@ def counter_cases(thorough):
             text = (f.split("\n")[0] + ";\n\n" if proto else "") + f
             cases.append({"kind": "args", "n": na, "text": text,
                           "expect": {"TOO_MANY_ARGS": (2 if proto else 1) if na > 4 else 0}})
+    # parameters that contain commas of their own (a function pointer) count once each
+    for na in range(2, 7):
+        for k in (0, na - 1):
+            args = [f"int a{i}" for i in range(na)]
+            args[k] = "int (*fn)(int, int, char *)"
+            f = gen_function("f_a", na, 1, 4)
+            head = f.split("\n")[0]
+            head2 = head[:head.index("(")] + "(" + ", ".join(args) + ")"
+            body = f.replace(head, head2, 1).replace(f"a{k}", "a%d" % ((k + 1) % na))
+            for proto in (False, True):
+                text = (head2 + ";\n\n" if proto else "") + body
+                cases.append({"kind": "args-with-function-pointer", "n": na, "text": text,
+                              "expect": {"TOO_MANY_ARGS": (2 if proto else 1) if na > 4 else 0}})
     for nv in range(0, 10):
         for shape in (0, 1):
             f = gen_function("f_a", 1, nv, nv + 6, shape)
